@@ -97,6 +97,18 @@ fn run_inner(line: &str) -> String {
             semilegal::gen_all_into(&b, &mut v);
             v.len().to_string()
         }
+        "geninto2" => {
+            // the safe `gen_all_into` API appending two positions' moves to ONE `MoveList` (256 slots, checked push)
+            if t.len() != 13 {
+                return BADARG.to_string();
+            }
+            let b1 = tryb!(board_of(&t[1..7]));
+            let b2 = tryb!(board_of(&t[7..13]));
+            let mut l = owlchess::movegen::MoveList::new();
+            semilegal::gen_all_into(&b1, &mut l);
+            semilegal::gen_all_into(&b2, &mut l);
+            format!("len={}", l.len())
+        }
         "wfbulk" => {
             if t.len() != 3 {
                 return BADARG.to_string();
@@ -203,22 +215,33 @@ fn run_inner(line: &str) -> String {
         }
         "attackers" => {
             let b = tryb!(board_of(&t[1..]));
-            let mut out = String::new();
-            let mut masks = [0u64; 2];
-            for (ci, col) in [Color::White, Color::Black].into_iter().enumerate() {
-                for sq in 0..64 {
-                    let c = Coord::from_index(sq);
-                    let a = movegen::cell_attackers(&b, c, col);
-                    if !(ci == 0 && sq == 0) {
-                        out.push(',');
-                    }
-                    out.push_str(&hex(a.as_raw()));
-                    if movegen::is_cell_attacked(&b, c, col) {
-                        masks[ci] |= 1u64 << sq;
-                    }
-                }
+            attackers_fmt(&b)
+        }
+        "queryafter" => {
+            // attack / check queries on the board object a move produced, and on the same object after the move was
+            // taken back (incrementally maintained sets, not a re-validated copy)
+            if t.len() != 8 {
+                return BADARG.to_string();
             }
-            format!("{} {} {}", out, hex(masks[0]), hex(masks[1]))
+            let b = tryb!(board_of(&t[1..7]));
+            let m4 = tryo!(mv4_parse(t[7]));
+            let m = match mv4_new(m4) {
+                Ok(m) => m,
+                Err(_) => return "n/a".to_string(),
+            };
+            if !m.is_semilegal(&b) {
+                return "n/a".to_string();
+            }
+            let mut b2 = b.clone();
+            let u = unsafe { moves::make_move_unchecked(&mut b2, m) };
+            let legal = !b2.is_opponent_king_attacked();
+            let first = if legal {
+                format!("{} | {}", attackers_fmt(&b2), check_fmt(&b2))
+            } else {
+                "- | -".to_string()
+            };
+            unsafe { moves::unmake_move_unchecked(&mut b2, m, u) };
+            format!("{} | {} | {}", first, attackers_fmt(&b2), check_fmt(&b2))
         }
         "check" => {
             let b = tryb!(board_of(&t[1..]));
@@ -227,6 +250,23 @@ fn run_inner(line: &str) -> String {
         "outcome" => {
             let b = tryb!(board_of(&t[1..]));
             outcome_fmt(&b)
+        }
+        "outcomeafter" => {
+            // the classification of the position REACHED by a move, on the very board object the move produced (its
+            // incrementally maintained sets and hash, not a re-validated copy)
+            if t.len() != 8 {
+                return BADARG.to_string();
+            }
+            let b = tryb!(board_of(&t[1..7]));
+            let m4 = tryo!(mv4_parse(t[7]));
+            let m = match mv4_new(m4) {
+                Ok(m) => m,
+                Err(_) => return "n/a".to_string(),
+            };
+            match b.make_move(m) {
+                Ok(nb) => outcome_fmt(&nb),
+                Err(_) => "n/a".to_string(),
+            }
         }
         "fenparse" => {
             if t.len() != 2 {
@@ -452,6 +492,29 @@ fn run_inner(line: &str) -> String {
         }
         _ => "badop".to_string(),
     }
+}
+
+fn attackers_fmt(b: &Board) -> String {
+    let mut out = String::new();
+    let mut masks = [0u64; 2];
+    for (ci, col) in [Color::White, Color::Black].into_iter().enumerate() {
+        for sq in 0..64 {
+            let c = Coord::from_index(sq);
+            let a = movegen::cell_attackers(b, c, col);
+            if !(ci == 0 && sq == 0) {
+                out.push(',');
+            }
+            out.push_str(&hex(a.as_raw()));
+            if movegen::is_cell_attacked(b, c, col) {
+                masks[ci] |= 1u64 << sq;
+            }
+        }
+    }
+    format!("{} {} {}", out, hex(masks[0]), hex(masks[1]))
+}
+
+fn check_fmt(b: &Board) -> String {
+    format!("{} {}", bit01(b.is_check()), hex(b.checkers().as_raw()))
 }
 
 pub fn outcome_fmt(b: &Board) -> String {
